@@ -217,6 +217,8 @@ def shard(i, n, nprog, stride):
             continue
         r = rng(PROP, 'gen', j)
         prog, _ = gen.generate(r, {'size': 1})
+        if j % 3 == 1:
+            prog['layout'] = j
         src = lang.to_mamba(prog)
         if len(src.split('\n')) > 45:
             continue
